@@ -241,6 +241,8 @@ def flow_bounds(ctx):
 
 
 def rules(ctx):
+    from . import order
+    order.depot_sides(ctx, "R4")
     growth_guards(ctx)
     limit_combination(ctx)
     depot_limits(ctx)
